@@ -7,7 +7,7 @@ REPO = os.environ.get('VERIF_REPO', '/repo')
 REPLAY_FLAGS = ['-std=c++14', '-O1', '-w', '-fno-access-control', '-DINOVESA_ALLOW_PS_RESET=1',
                 '-DGIT_BRANCH="v"', '-DGIT_COMMIT="0"', '-DINOVESA_ENABLE_INTERRUPT=1',
                 '-DINOVESA_USE_OPENCL=0', '-DINOVESA_USE_OPENGL=0', '-DINOVESA_USE_PNG=0']
-REPLAY_LIBS = ['-lboost_filesystem', '-lboost_system', '-lboost_program_options', '-lfftw3f']
+REPLAY_LIBS = ['-lboost_filesystem', '-lboost_system', '-lboost_program_options', '-lfftw3f', '-lfftw3']
 HDF5_INC = ['-I/usr/include/hdf5/serial']
 HDF5_LIBS = ['-L/usr/lib/x86_64-linux-gnu/hdf5/serial', '-lhdf5_cpp', '-lhdf5']
 
@@ -44,7 +44,8 @@ def run_replay(spec, scratch):
             outs.append({'args': [str(a) for a in args], 'exit': p.returncode, 'stdout': p.stdout[-2000:], 'stderr': p.stderr[-1000:]})
             if p.returncode == 1:
                 confirmed = True
-                break
+                if not spec.get('all'):
+                    break
         except subprocess.TimeoutExpired:
             outs.append({'args': [str(a) for a in args], 'exit': 'timeout'})
     return {'built': True, 'runs': outs, 'confirmed': confirmed}
